@@ -206,6 +206,9 @@ def install(I):
     E["attr.define"] = E["attrs.define"]
     E["attrs.evolve"] = Builtin("attrs.evolve", _attrs_evolve, "attrs.evolve = cls(**{init-name: getattr}) i.e. shallow")
     E["attrs.asdict"] = Builtin("attrs.asdict", _attrs_asdict)
+    E["attrs.fields"] = Builtin("attrs.fields", _attrs_fields)
+    E["attrs.filters.exclude"] = Builtin("attrs.filters.exclude", _attrs_filter(False))
+    E["attrs.filters.include"] = Builtin("attrs.filters.include", _attrs_filter(True))
     E["attrs.astuple"] = Builtin("attrs.astuple", _attrs_astuple)
     E["deprecated.deprecated"] = Builtin("deprecated", lambda i, a, k: Builtin("deprecated.deco", lambda i2, a2, k2: a2[0]))
     E["collections.deque"] = _deque_class(I, mkcls, meth)
@@ -407,9 +410,47 @@ def _attrs_evolve(i, a, k):
 
 
 def _attrs_asdict(i, a, k):
+    """attrs.asdict(inst, recurse=True, filter=None): nested attrs instances are converted too; filter(attribute, value) selects fields"""
     inst = a[0]
     cls = i.type_of(inst)
-    return DictV([(f.name, i.getattr_(inst, f.name)) for f in cls.attrs_fields])
+    flt = k.get("filter")
+    out = []
+    for f in cls.attrs_fields:
+        v = i.getattr_(inst, f.name)
+        if flt is not None and not i.st.branch(i.truth(i.call(flt, [_attr_descr(i, cls, f), v], {})), "asdict-filter"):
+            continue
+        if k.get("recurse", True) and isinstance(v, Obj) and getattr(v.cls, "attrs_fields", None) is not None:
+            v = _attrs_asdict(i, [v], {kk: vv for kk, vv in k.items() if kk != "filter"} | ({"filter": flt} if flt is not None else {}))
+        out.append((f.name, v))
+    return DictV(out)
+
+
+def _attr_descr(i, cls, f):
+    """one attrs.Attribute object per (class, field), so that identity/equality tests in filters work"""
+    cache = i.__dict__.setdefault("_attr_descr_cache", {})
+    key = (id(cls), f.name)
+    if key not in cache:
+        cache[key] = Obj(i.builtins["object"], {"name": f.name, "init": f.init, "kw_only": getattr(f, "kw_only", False)}, tag=f"attrs.Attribute:{f.name}")
+    return cache[key]
+
+
+def _attrs_fields(i, a, k):
+    cls = a[0]
+    if getattr(cls, "attrs_fields", None) is None:
+        i.raise_py("TypeError", "Passed object must be an attrs class")
+    return Obj(i.builtins["object"], {f.name: _attr_descr(i, cls, f) for f in cls.attrs_fields}, tag="attrs.fields")
+
+
+def _attrs_filter(include):
+    def mk(i, a, k):
+        what = list(a)
+
+        def flt(i2, a2, k2):
+            attr, value = a2[0], a2[1]
+            hit = any(w is attr or (isinstance(w, str) and w == attr.fields["name"]) or (isinstance(w, ClassV) and i2.type_of(value) is w) for w in what)
+            return hit if include else not hit
+        return Builtin("attrs.filter", flt)
+    return mk
 
 
 def _attrs_astuple(i, a, k):
